@@ -1,4 +1,5 @@
 import Driver.Bitint
+import Driver.Instant
 open Driver
 
 def step (line : String) : String :=
@@ -6,6 +7,7 @@ def step (line : String) : String :=
   | [] => "bad-op"
   | op :: args =>
     if op ∈ ["bui31", "bui63", "bi31", "bi63", "bi383", "bi447"] then runBitint op args
+    else if op.startsWith "i." then runInstant op args
     else "bad-op"
 
 partial def loop (h : IO.FS.Stream) (out : IO.FS.Stream) : IO Unit := do
